@@ -305,6 +305,9 @@ def check_property(pid, tier, seed):
 def default_search(ctx, proof_broken, bad, dis):
     """Oracle disagreements are failing inputs; everything else is reported without one."""
     seen = 0
+    # failing inputs first: the report slots must not be used up by mirror disagreements when an oracle stream
+    # (or a crash of the real code) already names an input on which the property fails
+    dis = sorted(dis, key=lambda d: 0 if (d.get("oracle") and not d.get("model_crash")) else 1)
     for d in dis:
         if d.get("oracle") and not d.get("model_crash"):
             if seen < 5:
